@@ -10,6 +10,7 @@ A folded node must satisfy the same postcondition as the unfolded operator (C02)
 and C11 value; literals are typed by C11 6.4.4.1.
 """
 from __future__ import annotations
+import re
 import os
 import z3
 from lark import Token
@@ -334,6 +335,33 @@ def gen_folding(loader, check, replay_on=True):
                     check.ob(f"{name}#total", pi, p.ctx.pc, p.outcome == "return", replay=rp)
                     if p.outcome == "return":
                         result_checks(name, pi, p, p.value, ev, et, rp, is_bool=True)
+        # ---- ground witnesses for comparison folding: concrete literal values, among them EQUAL values that are distinct Python
+        #      objects (outside CPython's small-int cache) - folding must compare values, never object identity
+        if ta == (True, 32):
+            for va, vb in ((300, 300), (65536, 65536), (-300, -300), (5, 5), (300, 301), (-1, 1), (0, 0)):
+                for op, tok, cb in (("==", "EQ_OP", "equality_expr"), ("!=", "NE_OP", "equality_expr"), ("<=", "LE_OP", "relational_expr"), (">", "GT_OP", "relational_expr")):
+                    inst = f"ground {va} {op} {vb} (st32 literals)"
+                    name = f"{cb}({op})[fold]"
+                    check.instances_declared += 1
+
+                    def setup_g(it, va=va, vb=vb):
+                        t = tkit.mk_transformer(it)
+                        mk = lambda nm, v: it.call(irkit.C(loader, "Number"), [nm, int(str(v)), conc_vt(loader, (True, 32))], {})     # noqa: E731
+                        a, b = mk("const_a", va), mk("const_b", vb)
+                        for n_ in (a, b):
+                            n_.fields["inlined"] = True
+                            t.fields["il_ops_holder"].fields["read_ops"][n_.fields["name"]] = n_
+                        return {"t": t, "a": a, "b": b}
+                    ex = explore(loader, setup_g, lambda it, st, op=op, tok=tok, cb=cb: it.call(tkit.method(it, st["t"], cb), [[st["a"], Token(tok, op), st["b"]]], {}))
+                    check.absorb(ex, f"{name} {inst}")
+                    if ex.paths:
+                        check.instances_generated += 1
+                    want = {"==": va == vb, "!=": va != vb, "<=": va <= vb, ">": va > vb}[op]
+                    for p in ex.paths:
+                        res = p.value if p.outcome == "return" else None
+                        ok = isinstance(res, Obj) and res.cls is irkit.C(loader, "Bool") and bool(res.fields["value"]) == want
+                        check.ob(f"{name}#ground-witness", inst, p.ctx.pc, ok, detail=f"{p.outcome} {p.value!r}",
+                                 replay=("c09.ground_cmp", lambda mdl, va=va, vb=vb, op=op: {"va": va, "vb": vb, "op": op}) if replay_on else None)
         # ---- unary ---------------------------------------------------------------------------------------
         for op in ("~", "-", "+"):
             inst = f"a={tname(ta)}"
@@ -632,6 +660,18 @@ def replay_fold(a):
         lo, hi = (-(2 ** (got_t[1] - 1)), 2 ** (got_t[1] - 1)) if got_t[0] else (0, 2 ** got_t[1])
         return not (lo <= gv < hi), f"{desc} folded to the unwrapped integer {gv}, not representable in {tname(got_t)} (C11 value {want}); later compile-time comparisons use the raw integer"
     return (gv - want) % (2 ** got_t[1]) != 0 or got_t != tuple(et), f"{desc} folded to {gv}:{tname(got_t)}; C11 value {want}:{tname(et)}"
+
+
+@replay.register("c09.ground_cmp")
+def replay_ground_cmp(a):
+    c = irkit.real_compiler()
+    src = "{ RdV = (%d %s %d) ? 11 : 22; }" % (a["va"], a["op"], a["vb"])
+    txt = c.compile_c_stmt(src)
+    want = {"==": a["va"] == a["vb"], "!=": a["va"] != a["vb"], "<=": a["va"] <= a["vb"], ">": a["va"] > a["vb"]}[a["op"]]
+    m = re.search(r"WRITE_REG\(bundle, Rd_op, (.*)\);", txt)
+    got = m.group(1) if m else ""
+    is11 = "0xb" in got or ", 11)" in got
+    return is11 != want, f"{src} folds to {got} (C selects {11 if want else 22})"
 
 
 @replay.register("c09.cond")
